@@ -4,6 +4,8 @@ package main
 
 import (
 	"fmt"
+	"go/token"
+	"go/types"
 	"strings"
 
 	"golang.org/x/tools/go/ssa"
@@ -55,8 +57,8 @@ func valueSources(v ssa.Value, via *Edge, seen map[ssa.Value]bool) []valSrc {
 func runC12(w *World, c *Check) {
 	c.Rule("C12.payload", "bytes returned with a nil error are the result of the send that succeeded on that path", 3)
 	c.Rule("C12.order", "transport order and fall-back follow udp_preference_limit; KRB-ERROR stops the fall-back except RESPONSE_TOO_BIG on UDP", 5)
-	c.Rule("C12.krberror", "a KRB-ERROR from a KDC is returned as that KRBError", 4)
-	c.Rule("C12.loop", "dialSendUDP/TCP try every configured server: failures continue, only success returns inside the loop, bounded by len(kdcs), deadline before send", 12)
+	c.Rule("C12.krberror", "a KRB-ERROR from a KDC is returned as that KRBError", 8)
+	c.Rule("C12.loop", "dialSendUDP/TCP try every configured server: failures continue, only success returns inside the loop, bounded by len(kdcs), deadline before send and per connection", 14)
 	c.Rule("C12.framing", "TCP request = 4-byte big-endian length ‖ request; reply buffer sized from the 4-byte big-endian header", 4)
 	c.Rule("C12.every-kdc", "the list the send loops walk holds every configured server once: randServOrder draws among those that remain and removes exactly the drawn one", 5)
 	c.Rule("C12.bounded", "no recursion through sendToKDC; sends per call are bounded by the two transports × configured servers", 1)
@@ -319,6 +321,40 @@ func runC12(w *World, c *Check) {
 	if arms == 0 {
 		c.Fail("C12.krberror", fk, "arms", where, "sendToKDC has KRB-ERROR branches", "none found")
 	}
+	// each KRBError assertion is applied to the error whose failure it handles: the operand is the
+	// value of the nearest dominating `err != nil` test (identity: the UDP and TCP errors are
+	// different values that a rendering by type cannot tell apart)
+	for _, b := range fn.Blocks {
+		for _, in := range b.Instrs {
+			ta, ok := in.(*ssa.TypeAssert)
+			if !ok || !ta.CommaOk || !strings.HasSuffix(ta.AssertedType.String(), "messages.KRBError") {
+				continue
+			}
+			var nearest ssa.Value
+			for _, dc := range domConds(b) {
+				bo, isB := dc.cond.(*ssa.BinOp)
+				if !isB || (bo.Op != token.NEQ && bo.Op != token.EQL) || (bo.Op == token.NEQ) != dc.holds {
+					continue
+				}
+				for _, pair := range [][2]ssa.Value{{bo.X, bo.Y}, {bo.Y, bo.X}} {
+					if cn, isC := pair[1].(*ssa.Const); isC && cn.Value == nil && types.Identical(pair[0].Type(), ta.X.Type()) {
+						nearest = pair[0]
+					}
+				}
+				if nearest != nil {
+					break
+				}
+			}
+			c.Decide(nearest != nil && nearest == ta.X, "C12.krberror", fk, "assert-own-error:"+fa.R.R(ta.X), w.Pos(InstrPos(ta)),
+				"the error inspected for a KRB-ERROR is the one whose failure this branch handles (the nearest dominating err != nil test)",
+				"asserts "+trunc(fa.R.R(ta.X), 100)+" under the failure test of "+func() string {
+					if nearest == nil {
+						return "no error"
+					}
+					return trunc(fa.R.R(nearest), 100)
+				}())
+		}
+	}
 
 	// ---- rule 4: the dial loops ------------------------------------------------------
 	for _, lk := range []struct{ fk, proto, send string }{{"client.dialSendUDP", "udp", `client\.sendUDP`}, {"client.dialSendTCP", "tcp", `client\.sendTCP`}} {
@@ -365,6 +401,33 @@ func runC12(w *World, c *Check) {
 			okDL = len(pass) > 0 && la.PathToInstrAvoiding(pass, sends[0]) == nil
 		}
 		c.Decide(okDL, "C12.loop", lk.fk, "deadline-before-send", lw, "a deadline is set (and its error checked) before every send, so a silent server cannot block", "SetDeadline does not dominate the send")
+		// the deadline is taken per connection: the clock is read inside the loop, so a server that
+		// used up its time does not eat into the next one's
+		okPer := false
+		if len(dl) == 1 {
+			arg := dl[0].Common().Args[0]
+			seen := map[ssa.Value]bool{}
+			var nowIn func(v ssa.Value, depth int) bool
+			nowIn = func(v ssa.Value, depth int) bool {
+				if depth > 6 || seen[v] {
+					return false
+				}
+				seen[v] = true
+				if call, isCall := v.(*ssa.Call); isCall {
+					if f := call.Call.StaticCallee(); f != nil && calleeName(f) == "time.Now" {
+						return loopHeaderOf(call.Block()) == hdr
+					}
+					for _, a := range call.Call.Args {
+						if nowIn(a, depth+1) {
+							return true
+						}
+					}
+				}
+				return false
+			}
+			okPer = nowIn(arg, 0)
+		}
+		c.Decide(okPer, "C12.loop", lk.fk, "deadline-per-connection", lw, "the deadline of each connection is computed from the clock inside the loop", "the SetDeadline argument does not derive from a time.Now() call made inside the loop (one deadline shared by all servers?)")
 		// in-loop returns: only on send success
 		for _, x := range la.Exits() {
 			inLoop := loopHeaderOf(x.Ret.Block()) == hdr || (x.In != nil && loopHeaderOf(x.In.From) == hdr && x.In.From != hdr)
